@@ -30,7 +30,11 @@ func (c *brotliDecompressor) Read(bytes []byte) (int, error) {
 	return c.reader.Read(bytes)
 }
 func (c *brotliDecompressor) Reset(rdr io.Reader) error {
-	return c.reader.Reset(rdr)
+	// brotli's Reader.Reset retains input it has buffered but not consumed
+	// (bytes that followed the end of the previous stream), which would then
+	// be decoded as the start of the next stream. So use a fresh reader.
+	c.reader = brotli.NewReader(rdr)
+	return nil
 }
 func (c *brotliDecompressor) Close() error {
 	// brotli's Reader does not expose a Close function
